@@ -60,6 +60,7 @@ type summary struct {
 	LastSeed     uint64          `json:"last_seed"`
 	WallS        float64         `json:"wall_s"`
 	Violation    *foundViolation `json:"violation,omitempty"`
+	Known        []*foundViolation `json:"known,omitempty"`
 }
 
 type replayFile struct {
@@ -211,7 +212,42 @@ func build() *env {
 
 	e.bin = filepath.Join(scratch, "sim.test")
 	t0 := time.Now()
-	out, err = run(filepath.Join(scratch, "sim"), goEnv(), goBin, "test", "-c", "-tags", "verif", "-trimpath",
+	// A scenario family that does not compile (e.g. against an edited /repo whose
+	// API it uses changed) must not take the other properties' checks down with
+	// it: build the families first and link only those that compile.
+	simDir := filepath.Join(scratch, "sim")
+	var fams []string
+	if ents, rerr := os.ReadDir(filepath.Join(simDir, "scen")); rerr == nil {
+		for _, en := range ents {
+			if en.IsDir() {
+				fams = append(fams, en.Name())
+			}
+		}
+	}
+	bout, berr := run(simDir, goEnv(), goBin, "build", "-tags", "verif", "-trimpath", "./scen/...")
+	broken := map[string]bool{}
+	if berr != nil {
+		for _, line := range strings.Split(bout, "\n") {
+			if strings.HasPrefix(line, "# verifsim/scen/") {
+				broken[strings.TrimSpace(strings.TrimPrefix(line, "# verifsim/scen/"))] = true
+			}
+		}
+		if len(broken) == 0 {
+			cleanup(e)
+			die(2, "build of the harness against the working tree failed (%v):\n%s", berr, bout)
+		}
+		fmt.Fprintf(os.Stderr, "check: families that do not compile are left out: %v\n%s\n", broken, head(bout, 3000))
+	}
+	var wt strings.Builder
+	wt.WriteString("package run\n\nimport (\n\t\"testing\"\n\n\t\"verifsim/core\"\n")
+	for _, f := range fams {
+		if !broken[f] {
+			fmt.Fprintf(&wt, "\t_ \"verifsim/scen/%s\"\n", f)
+		}
+	}
+	wt.WriteString(")\n\n// TestWorker is the worker entry point; it does nothing unless VSIM_MODE is set.\nfunc TestWorker(t *testing.T) { core.WorkerMain(t) }\n")
+	os.WriteFile(filepath.Join(simDir, "run", "worker_test.go"), []byte(wt.String()), 0o644)
+	out, err = run(simDir, goEnv(), goBin, "test", "-c", "-tags", "verif", "-trimpath",
 		"-o", e.bin, "./run")
 	if err != nil {
 		cleanup(e)
@@ -440,12 +476,22 @@ func loadKnownFindings() []knownFinding {
 		for _, f := range strings.Fields(rest) {
 			if strings.HasPrefix(f, "property=") && kf.property == "" {
 				kf.property = strings.TrimPrefix(f, "property=")
-			} else if strings.HasPrefix(f, "signature=") && kf.signature == "" {
-				kf.signature = strings.TrimPrefix(f, "signature=")
 			}
 		}
-		if i := strings.Index(rest, "signature="+kf.signature); i >= 0 {
-			kf.text = strings.TrimSpace(rest[i+len("signature="+kf.signature):])
+		// signature="class text with spaces" or signature=word
+		if i := strings.Index(rest, "signature=\""); i >= 0 {
+			tail := rest[i+len("signature=\""):]
+			if j := strings.IndexByte(tail, '"'); j >= 0 {
+				kf.signature = tail[:j]
+				kf.text = strings.TrimSpace(tail[j+1:])
+			}
+		} else if i := strings.Index(rest, "signature="); i >= 0 {
+			tail := rest[i+len("signature="):]
+			fs := strings.Fields(tail)
+			if len(fs) > 0 {
+				kf.signature = fs[0]
+				kf.text = strings.TrimSpace(strings.TrimPrefix(tail, fs[0]))
+			}
 		}
 		if kf.property != "" && kf.signature != "" {
 			out = append(out, kf)
@@ -520,6 +566,13 @@ func checkProperty(prop, tier string) int {
 	// Seeds: worker w runs base*1000003 + w + k*nw, so different VERIF_SEED
 	// values give disjoint ranges.
 	seed0 := base * 1000003
+	kfsAll := loadKnownFindings()
+	var knownSigs []string
+	for _, kf := range kfsAll {
+		if kf.property == prop {
+			knownSigs = append(knownSigs, kf.signature)
+		}
+	}
 	type wres struct {
 		sum *summary
 		wo  workerOut
@@ -543,6 +596,9 @@ func checkProperty(prop, tier string) int {
 			if v := os.Getenv("VERIF_MAXRUNS"); v != "" {
 				extra = append(extra, "VSIM_MAXRUNS="+v)
 			}
+			if len(knownSigs) > 0 {
+				extra = append(extra, "VSIM_KNOWN="+strings.Join(knownSigs, "|"))
+			}
 			wo := runWorker(e, extra, budget+180*time.Second, 1)
 			r := wres{wo: wo, inf: inf}
 			if b, err := os.ReadFile(out); err == nil {
@@ -560,6 +616,7 @@ func checkProperty(prop, tier string) int {
 	agg := &summary{Property: prop, Faults: map[string]int{}, Probes: map[string]int{}, YieldHits: map[string]int{}}
 	sigs := map[uint64]struct{}{}
 	var violations []*replayFile
+	knownHit := map[string]*foundViolation{}
 	trouble := ""
 	for w, r := range results {
 		if r.sum != nil {
@@ -582,6 +639,15 @@ func checkProperty(prop, tier string) int {
 			}
 			if len(agg.Samples) < 3 && len(s.Samples) > 0 {
 				agg.Samples = append(agg.Samples, s.Samples[0])
+			}
+			for _, kv := range s.Known {
+				for _, sg := range knownSigs {
+					if strings.HasPrefix(kv.Class, sg) {
+						if old, ok := knownHit[sg]; !ok || kv.Seed < old.Seed {
+							knownHit[sg] = kv
+						}
+					}
+				}
 			}
 			if s.Violation != nil {
 				v := s.Violation
@@ -608,10 +674,18 @@ func checkProperty(prop, tier string) int {
 	}
 	agg.Nontrivial = len(sigs)
 
-	kfs := loadKnownFindings()
+	kfs := kfsAll
 	exit := 0
 	var reported []string
 	var known []string
+	for _, kf := range kfs {
+		if kf.property != prop {
+			continue
+		}
+		if hit, ok := knownHit[kf.signature]; ok {
+			known = append(known, fmt.Sprintf("KNOWN-FINDING: property=%s %s (met again at seed %d)", prop, kf.text, hit.Seed))
+		}
+	}
 	nViol := 0
 	seenClass := map[string]bool{}
 	sort.Slice(violations, func(i, j int) bool { return violations[i].Seed < violations[j].Seed })
